@@ -31,7 +31,11 @@ def impl_main():
         if tag not in objs:
             kind = v[2]
             if kind == "Plain":
-                objs[tag] = {"nested": tag} if tag.startswith("d") else OpCode(tag, 0x12, {})
+                if tag.startswith("n"):
+                    # a container that holds an object compared by identity (an OpCode has no __eq__): stored as it is, not as a copy
+                    objs[tag] = {"inner": OpCode(tag, 0x12, {})} if tag.endswith("1") else [OpCode(tag, 0x12, {}), 7]
+                else:
+                    objs[tag] = {"nested": tag} if tag.startswith("d") else OpCode(tag, 0x12, {})
             elif kind == "Callable":
                 objs[tag] = (lambda t=tag: t) if tag.startswith("f") else type("Cls_" + tag, (), {})
             else:
@@ -46,7 +50,7 @@ def impl_main():
         if isinstance(x, str):
             return ["s", x]
         for t, o in objs.items():
-            if o is x or (isinstance(o, dict) and o == x):
+            if o is x or (isinstance(o, (dict, list)) and o == x):
                 return ["o", t]
         return ["o", "?"]
 
@@ -112,7 +116,7 @@ def gen_value(rng, callables=True):
     if r < 0.6:
         return ["s", rng.choice(["", "a", "READ", "x y"])]
     if r < 0.8 or not callables:
-        return ["o", rng.choice(["d1", "d2", "op1", "op2"]), "Plain"]
+        return ["o", rng.choice(["d1", "d2", "op1", "op2", "n1", "n2"]), "Plain"]
     if r < 0.95:
         return ["o", rng.choice(["f1", "f2", "c1"]), "Callable"]
     return ["o", "m1", "Method"]
